@@ -42,23 +42,52 @@ Theorem C11_request_roundtrip_partial : forall E cA cB m cA' r' pm ridA w, ideal
 Proof. exact request_roundtrip. Qed.
 Print Assumptions C11_request_roundtrip_partial.
 
-(* the first response to a request (it reuses the request's nonce; its OSCORE option is empty), unprotected by the requester with the
-   identifiers of that request: original code, options and payload.  Not proved: responses with an own Partial IV (notifications) and
-   contexts with responses_send_kid — both are exercised by the correspondence streams. *)
-Theorem C11_response_roundtrip_partial : forall E cS cC m rS rC cS' r' pm ridS, ideal E ->
-  recipient_key cC = sender_key cS -> common_iv cC = common_iv cS -> c_alg cC = c_alg cS ->
-  is_response (code m) = true -> responses_send_kid cS = false ->
-  can_reuse_nonce rS = true -> rid_kid rC = rid_kid rS -> rid_piv rC = rid_piv rS ->
+(* Every response — the first one (reused nonce, empty option) or one with an own Partial IV, with or without responses_send_kid —
+   unprotected by the requester with the identifiers of the request it answers, whatever outer Observe the server stack or an
+   intermediary put on it: original code, options and payload; Observe = the response's own sequence number (or -1 when it has none)
+   if the outer Observe is present, else the inner value *)
+Theorem C11_response_roundtrip : forall E cS cC m rS rC kc cS' r' pm ridS oobs, ideal E ->
+  recipient_key cC = sender_key cS -> recipient_id cC = sender_id cS -> common_iv cC = common_iv cS -> c_alg cC = c_alg cS ->
+  is_response (code m) = true -> rid_kid rC = rid_kid rS -> rid_piv rC = rid_piv rS ->
   (snd (code_style rS) = CODE_CHANGED \/ snd (code_style rS) = CODE_CONTENT) ->
-  protect E cS m (Some rS) KcDefault = (cS', r', Ok (pm, ridS)) ->
+  protect E cS m (Some rS) kc = (cS', r', Ok (pm, ridS)) ->
   alg_tag_bytes (c_alg cC) + 1 <= blen (payload pm) ->
   exists um,
-    unprotect E cC pm (Some rC) = (cC, Ok (um, rC)) /\
+    unprotect E cC {| code := code pm; opts := set_opt OPT_OBSERVE oobs (opts pm); payload := payload pm |} (Some rC) = (cC, Ok (um, rC)) /\
     u_code um = code m /\ u_opts um = del_opt OPT_OBSERVE (opts m) /\ u_payload um = payload m /\
-    u_observe um = observe_value (opts m) /\
-    opts pm = [(OPT_OSCORE, [])] /\ can_reuse_nonce ridS = false.
-Proof. exact response_roundtrip. Qed.
-Print Assumptions C11_response_roundtrip_partial.
+    u_observe um = match oobs with
+                   | None => observe_value (opts m)
+                   | Some _ => Some (if can_reuse_nonce rS then -1 else from_bytes_big (piv_of_seq (sender_sequence_number cS)))
+                   end /\
+    rid_kid ridS = rid_kid rS /\ rid_piv ridS = rid_piv rS.
+Proof. exact response_roundtrip_any. Qed.
+Print Assumptions C11_response_roundtrip.
+
+(* notifications: protect draws a fresh sequence number (and refuses at MAX_SEQNO), the OSCORE option carries it in shortest form (and the
+   kid iff responses_send_kid), the nonce is built from the response's own Partial IV and the responder's id, the AAD carries the REQUEST's
+   kid and Partial IV; the requester gets code, options and payload back and Observe = the notification's sequence number *)
+Theorem C11_notification_roundtrip : forall E cS cC m rS rC kc cS' r' pm ridS oobs, ideal E ->
+  recipient_key cC = sender_key cS -> recipient_id cC = sender_id cS -> common_iv cC = common_iv cS -> c_alg cC = c_alg cS ->
+  is_response (code m) = true -> can_reuse_nonce rS = false -> rid_kid rC = rid_kid rS -> rid_piv rC = rid_piv rS ->
+  (snd (code_style rS) = CODE_CHANGED \/ snd (code_style rS) = CODE_CONTENT) ->
+  protect E cS m (Some rS) kc = (cS', r', Ok (pm, ridS)) ->
+  alg_tag_bytes (c_alg cC) + 1 <= blen (payload pm) ->
+  let seq := sender_sequence_number cS in
+  (exists um,
+    unprotect E cC {| code := code pm; opts := set_opt OPT_OBSERVE oobs (opts pm); payload := payload pm |} (Some rC) = (cC, Ok (um, rC)) /\
+    u_code um = code m /\ u_opts um = del_opt OPT_OBSERVE (opts m) /\ u_payload um = payload m /\
+    u_observe um = match oobs with None => observe_value (opts m) | Some _ => Some (from_bytes_big (piv_of_seq seq)) end) /\
+  seq < MAX_SEQNO /\ sender_sequence_number cS' = seq + 1 /\
+  (exists od, opts pm = [(OPT_OSCORE, od)] /\
+     uncompress od = Ok {| u_piv := Some (piv_of_seq seq); u_kid := if responses_send_kid cS then Some (sender_id cS) else None;
+                           u_kid_context := None; u_group := false |}) /\
+  (exists nonce pt,
+     construct_nonce (common_iv cS) (to_bytes_big_n (Z.to_nat PIV_FULL_BYTES) seq) (sender_id cS) (alg_iv_bytes (c_alg cS)) = Ok nonce /\
+     payload pm = enc E (sender_key cS) nonce
+       (build_encrypt0_structure (extract_external_aad (c_alg cS)
+          {| rid_kid := rid_kid rS; rid_piv := rid_piv rS; can_reuse_nonce := false; code_style := code_style rS |})) pt).
+Proof. exact notification_roundtrip. Qed.
+Print Assumptions C11_notification_roundtrip.
 
 (* ---------------------------------------------------------------- the outer message reveals nothing of the inner one *)
 (* only Uri-Host, Observe and the OSCORE option outside; Uri-Host is the message's own; fixed outer codes *)
@@ -129,6 +158,37 @@ Theorem C11_accepted_option_fields : forall E c pm r c' pt seqno rid',
     dec E (recipient_key c) nonce (build_encrypt0_structure (extract_external_aad (c_alg c) rid')) (payload pm) = Some pt.
 Proof. exact unprotect_verify_inv. Qed.
 Print Assumptions C11_accepted_option_fields.
+
+(* a protected response — first or with its own Partial IV — accepted under the request identifiers (k1, p1) was produced for (k1, p1):
+   it cannot be replayed against another request *)
+Theorem C11_response_not_replayable_against_other_request :
+  forall E cS m rS kc cS' rS' pmS ridS cR pm rR cR' pt seqno ridR, ideal E ->
+  small_alg (c_alg cS) -> small_alg (c_alg cR) -> small_rid rS -> small_rid rR ->
+  is_response (code m) = true ->
+  protect E cS m (Some rS) kc = (cS', rS', Ok (pmS, ridS)) ->
+  unprotect_verify E cR pm (Some rR) = Ok (cR', pt, seqno, ridR) ->
+  payload pm = payload pmS ->
+  rid_kid rR = rid_kid rS /\ rid_piv rR = rid_piv rS.
+Proof. exact response_not_replayable_against_other_request. Qed.
+Print Assumptions C11_response_not_replayable_against_other_request.
+
+(* Changes of the OSCORE option of a request, with the limits made explicit.  If a message carrying a sender's request ciphertext is
+   accepted, then the Partial IV FIELD of its option is the sender's byte for byte (it is in the AAD), the Group flag is clear, and the
+   EFFECTIVE key id (KID field, or the recipient's own id when the field is absent) is the sender's id and the EFFECTIVE id context is the
+   recipient's own.  Nothing more holds of the code as it is: the KID / ID-context FIELDS and bytes after the last field are not bound,
+   because the OSCORE option is not in the AAD (RFC 8613 5.4) — the statement "any change to the key ID or ID context in the OSCORE option
+   makes unprotection fail" is refuted by the three witnesses below (open known findings C11:accepted-option-change:...). *)
+Theorem C11_request_option_change_detected :
+  forall E cS m kc cS' rS' pmS ridS cR pm cR' pt seqno ridR od' u', ideal E ->
+  small_alg (c_alg cS) -> small_alg (c_alg cR) -> small_rid ridS -> small_rid ridR ->
+  is_request (code m) = true ->
+  protect E cS m None kc = (cS', rS', Ok (pmS, ridS)) ->
+  unprotect_verify E cR pm None = Ok (cR', pt, seqno, ridR) ->
+  payload pm = payload pmS ->
+  get_opt OPT_OSCORE (opts pm) = Some od' -> uncompress od' = Ok u' ->
+  u_piv u' = Some (rid_piv ridS) /\ eff_kid cR u' = sender_id cS /\ eff_kid_context cR u' = id_context cR /\ u_group u' = false.
+Proof. exact request_option_change_detected. Qed.
+Print Assumptions C11_request_option_change_detected.
 
 (* the nonce binds the id of whoever generated the Partial IV and the Partial IV itself (left-padded to 5 bytes): a response's own
    Partial IV, which is not in the AAD, cannot be changed without changing the nonce *)
@@ -216,3 +276,31 @@ Proof.
   repeat split; vm_compute; reflexivity.
 Qed.
 Print Assumptions C11_hypotheses_satisfiable.
+
+
+(* ---------------------------------------------------------------- refuted: field-level changes of the OSCORE option that ARE accepted *)
+Definition ex_resp : msg := {| code := 69; opts := [(12, [])]; payload := [111; 107] |}.
+Definition ex_rid : rid := {| rid_kid := [1]; rid_piv := [255; 255]; can_reuse_nonce := false; code_style := (CODE_FETCH, CODE_CONTENT) |}.
+(* (a) K flag of a request cleared (1a ff ff 02 37 cb 01 -> 12 ff ff 02 37 cb 01): the kid byte is left behind and ignored, the kid
+   defaults to recipient_id; (b) KID and ID-context fields removed (-> 02 ff ff): both default; in each case the very same message
+   and request identifiers come out as for the untouched request *)
+Example C11_request_kid_idcontext_change_refuted :
+  exists pm um r,
+    snd (protect sym_aead ex_A ex_req None KcDefault) = Ok (pm, r) /\
+    get_opt OPT_OSCORE (opts pm) = Some [26; 255; 255; 2; 55; 203; 1] /\
+    snd (unprotect sym_aead ex_B pm None) = Ok um /\
+    snd (unprotect sym_aead ex_B (apply_tamper (TOptSet [18; 255; 255; 2; 55; 203; 1]) pm) None) = Ok um /\
+    snd (unprotect sym_aead ex_B (apply_tamper (TOptSet [2; 255; 255]) pm) None) = Ok um.
+Proof. do 3 eexists. split; [vm_compute; reflexivity|]. split; [reflexivity|]. split; [vm_compute; reflexivity|]. split; vm_compute; reflexivity. Qed.
+Print Assumptions C11_request_kid_idcontext_change_refuted.
+(* (c) the own Partial IV of a response re-encoded with leading zero bytes (01 07 -> 03 00 00 07), (d) a KID field added (09 07 02 03):
+   accepted with the same result *)
+Example C11_response_piv_kid_change_refuted :
+  exists pm um r,
+    snd (protect sym_aead ex_B ex_resp (Some ex_rid) KcDefault) = Ok (pm, r) /\
+    get_opt OPT_OSCORE (opts pm) = Some [1; 7] /\
+    snd (unprotect sym_aead ex_A pm (Some ex_rid)) = Ok um /\
+    snd (unprotect sym_aead ex_A (apply_tamper (TOptSet [3; 0; 0; 7]) pm) (Some ex_rid)) = Ok um /\
+    snd (unprotect sym_aead ex_A (apply_tamper (TOptSet [9; 7; 2; 3]) pm) (Some ex_rid)) = Ok um.
+Proof. do 3 eexists. split; [vm_compute; reflexivity|]. split; [reflexivity|]. split; [vm_compute; reflexivity|]. split; vm_compute; reflexivity. Qed.
+Print Assumptions C11_response_piv_kid_change_refuted.
